@@ -1046,6 +1046,18 @@ func (fr *FnRun) bindLocals(st *State, vars map[string]Val) {
 		if ambiguous || len(defined) == 0 {
 			continue
 		}
+		// an address-taken local lives in its cell: the cell always holds the current value, a
+		// value recorded at the declaration would be stale after a field assignment
+		var cell ssa.Value
+		for _, c := range defined {
+			if _, isAlloc := c.(*ssa.Alloc); isAlloc {
+				cell = c
+			}
+		}
+		if cell != nil {
+			vars[name] = st.vals[cell]
+			continue
+		}
 		best := defined[0]
 		ok := true
 		for _, c := range defined[1:] {
